@@ -244,7 +244,13 @@ def _execute_case(mod, case, env):
         guard = _get_guard(mod)
         if guard is not None:
             guard.drain()
-        mod.run_case(case, out, env)
+        # every unseeded generator construction during a case (np.random.default_rng(), random.Random(): e.g. ARPACK start
+        # vectors, initial parameters of nn.Modules drawn by numqi) is answered by the harness with a fixed stream, so that a
+        # run is a function of (tree, tier, VERIF_SEED) only. Checks that enumerate entropy streams nest their own seam.
+        from mc import seams as _seams
+        _seams.reset_global_rngs(0)  # legacy global generators (torch.rand initial parameters, np.random) start every case from the same state
+        with _seams.EntropySeam(0):
+            mod.run_case(case, out, env)
         if guard is not None:
             for qual, idx in guard.drain():
                 if isinstance(idx, str) and idx.startswith('layout:'):
